@@ -68,6 +68,7 @@ type Exec struct {
 	specAssert bool               // the spec being evaluated is being proved (not assumed)
 	specBase   int                // length of the path condition when the outermost spec evaluation started
 	curFn      string
+	usedSpecs  map[*FnSpec]bool   // contracts assumed at call sites of the functions verified so far
 	curLabels  []string
 	curInputs  []NamedValue
 	curEntry   *State
@@ -499,6 +500,7 @@ func (e *Exec) runBlock(st *State, fr *Frame, b *ssa.BasicBlock, prev *ssa.Basic
 			return nil
 		}
 		ins := b.Instrs[i]
+		lastIns = ins
 		switch x := ins.(type) {
 		case *ssa.Phi:
 			continue // handled in enterBlock
@@ -680,6 +682,7 @@ func (e *Exec) instr(st *State, fr *Frame, ins ssa.Instruction) {
 		fr.env[x] = e.binop(st, fr, x.Op, e.val(fr, x.X), e.val(fr, x.Y), x.X.Type(), x.Y.Type(), x.Pos())
 	case *ssa.Store:
 		p := e.val(fr, x.Addr).(*PtrV)
+		e.guaranteeAt(st, fr, x, p, e.val(fr, x.Val))
 		e.store(st, fr, p, e.val(fr, x.Val), x.Pos())
 	case *ssa.FieldAddr:
 		p := e.val(fr, x.X).(*PtrV)
@@ -1011,6 +1014,19 @@ func (e *Exec) unbox(st *State, t types.Type, i *IfaceV) Value {
 	}
 	v := st.LoadLoc(Loc{Key: "box:" + typeKey(t), Idx: []*Term{i.Ref}, T: t})
 	e.assumeValid(st, t, v)
+	// every interface value of dynamic type t was made by boxing its content: its reference is box(content)
+	func() {
+		defer func() {
+			if x := recover(); x != nil {
+				if _, ok := x.(Unsupported); !ok {
+					panic(x)
+				}
+			}
+		}()
+		if fl := flatten(t, v); len(fl) > 0 {
+			st.AssumeFact(Implies(Eq(i.Tid, e.tid(t)), Eq(App("box:"+typeKey(t), SInt, fl...), i.Ref)))
+		}
+	}()
 	return v
 }
 
